@@ -31,6 +31,35 @@ def make_scat2(f, sym, colour, bias):
     return mod
 
 
+def scat_module(order, key=None, force=None, **kw):
+    """ScatLayer (order 1) / ScatLayerj2 (order 2) as the harness hands it to an oracle: for about one input in three
+    (decided by `key`, content-determined) the instance adopts its state - constructed with the other 10-tap q-shift
+    family where there is one, or through the deferred-initialisation workflow (meta device, to_empty) - and then
+    load_state_dict of an instance constructed as requested.  A layer IS its state."""
+    import os
+    from pytorch_wavelets.scatternet import ScatLayer as S1, ScatLayerj2 as S2
+    from .impl_dwt import _u, deferred
+    M = S1 if order == 1 else S2
+    right = M(**kw)
+    if force is None and (key is None or os.environ.get('VERIF_NO_TWINS') == '1'):
+        return right
+    u = {'alt': 0.0, 'deferred': 0.3}[force] if force else _u(key, 'adopt-scat')
+    if u >= 0.4:
+        return right
+    alt = {'qshift_a': 'qshift_06', 'qshift_06': 'qshift_a'}.get(kw.get('qshift', 'qshift_a' if order == 2 else None))
+    if order == 2 and alt is not None and u < 0.25:
+        try:
+            other = M(**dict(kw, qshift=alt))
+            sd = right.state_dict()
+            if list(sd.keys()) == list(other.state_dict().keys()) and all(a.shape == b.shape for a, b in zip(sd.values(), other.state_dict().values())):
+                other.load_state_dict({k: v.clone() for k, v in sd.items()})
+                return other
+        except Exception:
+            pass
+        return right
+    return deferred(lambda: M(**kw), right)
+
+
 def ScatLayer(ps, ts):
     sym, colour, rot = ps
     if rot:
